@@ -273,9 +273,12 @@ def r14_4_freshness(repo: Repo, rep: Report):
 def r14_5_shared(repo: Repo, rep: Report):
     """state written by cheatcodes (block fields, prank records) must stay inside the path / transaction that wrote it:
     fork-copy and per-transaction copy completeness (shared with C20)"""
+    from hsa.rules.c09 import r09_1_snapshot_restore
     from hsa.rules.c20 import r20_1_fork_copies
 
     r20_1_fork_copies(repo, rep)
+    # the caller's context (with its prank record) is deep-copied when a sub-call returns on several paths
+    r09_1_snapshot_restore(repo, rep)
 
 
 RULES = [r14_5_shared, r14_1_prank_consumption, r14_2_selector_effect_table, r14_3_encoders, r14_4_freshness]
